@@ -32,8 +32,8 @@ ASSUMPTIONS = [
 ]
 EXHAUSTIVE = {"quick": False, "thorough": False}
 PLAN = {"quick": dict(unions=2600, inputs=36), "thorough": dict(unions=60000, inputs=70)}
-FLOORS = {"quick": {"subclass_members": 150, "named_union_members": 500, "single_member_optionals": 30, "unmarshal_compared": 70000, "marshal_compared": 40000, "none_honoured": 2000, "all_reject_valueerror": 8000, "orders": 2000},
-          "thorough": {"subclass_members": 3000, "named_union_members": 12000, "single_member_optionals": 30, "unmarshal_compared": 3000000, "marshal_compared": 1500000, "none_honoured": 60000, "all_reject_valueerror": 300000, "orders": 30000}}
+FLOORS = {"quick": {"accept_all_members": 200, "subclass_members": 150, "named_union_members": 500, "single_member_optionals": 30, "unmarshal_compared": 70000, "marshal_compared": 40000, "none_honoured": 2000, "all_reject_valueerror": 8000, "orders": 2000},
+          "thorough": {"accept_all_members": 5000, "subclass_members": 3000, "named_union_members": 12000, "single_member_optionals": 30, "unmarshal_compared": 3000000, "marshal_compared": 1500000, "none_honoured": 60000, "all_reject_valueerror": 300000, "orders": 30000}}
 
 MOD = "vunion_pool"
 SRC = """
@@ -60,6 +60,7 @@ class DCChild(DC):
 """
 NAMED_UNIONS = ["NTU", "AlU", "MaybeInt", "NTS"]
 SUBCLASS_OF = {"int": ("bool", bool), "DC": ("DCChild", None)}
+EXTRA_MEMBERS = ["bytes", "Any", "object"]  # members that take bytes-like input as it is / accept everything: they answer at THEIR position
 
 
 def pool():
@@ -72,7 +73,7 @@ def pool():
         "int": int, "str": str, "float": float, "Decimal": decimal.Decimal, "date": datetime.date, "datetime": datetime.datetime,
         "UUID": uuid.UUID, "list[int]": list[int], "dict[str,int]": dict[str, int], "DC": m.DC, "Col": m.Col, "Lit2": m.Lit2,
         **{n: getattr(m, n) for n in NAMED_UNIONS},
-        "bool": bool, "DCChild": m.DCChild,
+        "bool": bool, "DCChild": m.DCChild, "bytes": bytes, "Any": typing.Any, "object": object,
     }, m
 
 
@@ -80,7 +81,7 @@ def member_values(m):
     UTC = datetime.timezone.utc
     return [0, 1, -5, 10**25, "", "a", "1", "1.5", "abc", "null", "x", "red", 1.5, -0.0, 2.0, decimal.Decimal("1.50"), decimal.Decimal("7"),
             datetime.date(2020, 1, 2), datetime.datetime(2020, 1, 2, 3, 4, 5, tzinfo=UTC), uuid.UUID(int=7), [1, 2], [], ["1", "2"], {"a": 1}, {},
-            {"a": "1"}, m.DC(1, "z"), {"a": 1, "b": "q"}, {"a": "5"}, m.DCChild("z"), {"a": "x"}, "true", "yes", "on", m.Col.red, m.Col.one, "2020-01-02", "2020-01-02T03:04:05+00:00",
+            {"a": "1"}, m.DC(1, "z"), {"a": 1, "b": "q"}, {"a": "5"}, m.DCChild("z"), {"a": "x"}, "true", "yes", "on", b"\xff\xfe", bytearray(b"\x80abc"), b"abc", memoryview(b"1"), m.Col.red, m.Col.one, "2020-01-02", "2020-01-02T03:04:05+00:00",
             "00000000-0000-0000-0000-000000000007", 2, True, False, None, b"1", b"abc", "[1, 2]", '{"a": 1}', (1, 2), {"b": "only"}, 7.0, "7"]
 
 
@@ -106,7 +107,7 @@ def outcome(fn, x):
     except (RecursionError, MemoryError):
         return ("skip", None)
     except Exception as e:  # noqa: BLE001
-        return ("raised", type(e).__name__)
+        return ("raised", type(e).__name__, tuple(k.__name__ for k in type(e).__mro__))
 
 
 def ref_unmarshal(members, routines, x):
@@ -138,7 +139,8 @@ def same_outcome(a, b):
         return False
     if a[0] == "ok":
         return canon(a[1], strict=True) == canon(b[1], strict=True)
-    return a[1] == b[1]
+    # (a = what the rule demands, b = what was observed) an exception of a SUBCLASS of the demanded class is that class
+    return a[1] == b[1] or (len(b) > 2 and a[1] in b[2])
 
 
 def canaries(sh):
@@ -155,7 +157,7 @@ def names_for(sh, i, rng, names):
 def run_shard(sh):
     plan = PLAN[sh.tier]
     P, mod = pool()
-    names = [n for n in P if n not in NAMED_UNIONS and n not in ("bool", "DCChild")]
+    names = [n for n in P if n not in NAMED_UNIONS and n not in ("bool", "DCChild") and n not in EXTRA_MEMBERS]
     import random
 
     # deterministic global enumeration, sharded round-robin
@@ -188,6 +190,10 @@ def run_shard(sh):
             j = rng.randrange(len(tup))
             tup = tup[:j] + (rng.choice(NAMED_UNIONS),) + tup[j + 1:]
             sh.count("named_union_members")
+        if len(tup) >= 2 and rng.random() < 0.15:
+            j = rng.randrange(1, len(tup))  # never first: an accept-all member in front answers everything
+            tup = tup[:j] + (rng.choice(EXTRA_MEMBERS),) + tup[j + 1:]
+            sh.count("accept_all_members")
         for base_name, (sub_name, _) in SUBCLASS_OF.items():
             if base_name in tup and len(tup) >= 2 and rng.random() < 0.4:
                 # a subclass of another member (bool next to int, a dataclass next to its base), before or after it
